@@ -11,6 +11,14 @@ def decHandshake : String → Option Handshake
 def decMode : String → Option Mode
   | "standard" => some .standard | "policy" => some .policy | "makePolicy" => some .makePolicy | _ => none
 
+def decEvent (tok : String) : Option RecvEvent :=
+  if tok = "t" then some .timeout else if tok = "e" then some .error
+  else if tok = "d" then some (.data []) else if tok.startsWith "d" then (decBytes (String.ofList (tok.toList.drop 1))).map RecvEvent.data else none
+
+def handshakeName : Handshake → String
+  | .connectFailed => "connectFailed" | .noBanner => "noBanner" | .readError => "readError" | .badFraming => "badFraming"
+  | .wrongPacketType => "wrongPacketType" | .parseFailed => "parseFailed" | .ok => "ok"
+
 /-- line-protocol operations of the Session model -/
 def sessionOp (op : String) (args : List String) : Option J :=
   match op, args with
@@ -18,6 +26,12 @@ def sessionOp (op : String) (args : List String) : Option J :=
     let h ← decHandshake h; let m ← decMode m; let multi ← decBool multi; let st ← decNat st; let passed ← decBool passed
     let e := auditEnd { mode := m, multiTarget := multi } h { reportStatus := st, policyPassed := passed }
     pure (jok (.obj [("status", .nat e.status), ("algReport", .bool e.algReport), ("viaSysExit", .bool e.viaSysExit)]))
+  | "session.handshake", [evs] => do
+    let evs ← if evs = "_" then some [] else (evs.splitOn ",").mapM decEvent
+    let (h, k, s') := handshakeS { events := evs }
+    pure (jok (.obj [("class", .str (handshakeName h).toList), ("recvs", .nat s'.recvs), ("stalls", .nat s'.stalls),
+                     ("events_left", .nat s'.events.length),
+                     ("kex", J.ofOpt (fun (k : Wire.Kex) => .arr [jbl k.kex, jbl k.key, jbl k.encS, jbl k.macS]) k)]))
   | _, _ => none
 
 end SshAudit.Driver
